@@ -20,7 +20,7 @@ With(f, k, v) == [x \in DOMAIN f \cup {k} |-> IF x = k THEN v ELSE f[x]]
 Base   == [C |-> "US", ST |-> "WA", O |-> "Acme", CN |-> "web"]
 Rich   == [C |-> "US", ST |-> "WA", O |-> "Acme", CN |-> "web", OU |-> "Build", L |-> "Seattle", STREET |-> "1 Main St"]
 Comma  == [C |-> "US", ST |-> "WA", O |-> "Acme, Inc", CN |-> "web"]
-Specials == [C |-> "US", ST |-> "WA", O |-> "R+D; \"Ops\" <a>", CN |-> "build+release"]    \* every character that needs escaping in a DN string
+Specials == [C |-> "US", ST |-> "WA", O |-> "R+D; \"Ops\" <a>", CN |-> "build:release+x, y"]    \* every character that needs escaping in a DN string, and the colon that separates an identity's prefix
 Inter  == [C |-> "US", ST |-> "WA", O |-> "Acme", CN |-> "Acme Intermediate CA"]
 Root   == [C |-> "US", ST |-> "WA", O |-> "Acme", CN |-> "Acme Root CA"]
 Leaves == {[ok |-> TRUE, dn |-> Base, shape |-> "base"], [ok |-> TRUE, dn |-> Rich, shape |-> "rich"], [ok |-> TRUE, dn |-> Comma, shape |-> "comma"], [ok |-> TRUE, dn |-> Specials, shape |-> "specials"],
